@@ -32,6 +32,8 @@ C = dict(
         "restart seeds follow the C15 statement (entry iff a dropped incarnation exists; create(live namesake)-1 or now-1); databases are not re-created",
         "'in flight' = the fake handles the next source operation (a drop of an object of the chain) on the same writer from inside the "
         "operation's own request, i.e. exactly between the readiness check and the answer of the request",
+        "'swapped' = two consecutive source operations arriving on different input streams (op messages / catalog events) are "
+        "handled in the reverse order of their stamps (neither is a drop, the later one does not depend on the earlier one)",
         "recorded drop times as understood by the contract: restart snapshot, then every drop that was sent downstream and ended well",
         "TLC exhaustiveness holds for the constants in the cfg files only",
     ],
@@ -39,4 +41,11 @@ C = dict(
 
 
 def run(tier, replay=None):
+    if not replay:
+        from lib import vlib
+        # negative control of the swapped deliveries: a probe that records the probing operation's stamp as creation time
+        r = vlib.run_tlc("WriterReady", "WriterReady_ProbeTs.cfg", workers=4, timeout=300)
+        if "Contract" not in r.violated:
+            raise vlib.Inconclusive("WriterReady_ProbeTs.cfg no longer violates the contract: out-of-order delivery is vacuous")
+        vlib.log("[tlc] WriterReady/WriterReady_ProbeTs.cfg: violates Contract as expected")
     return flow.standard_flow(C, tier, replay)
